@@ -1,4 +1,5 @@
 """C17 -- faulty specifications are rejected with the fault's name and line."""
+import os
 import random
 import re
 
@@ -103,6 +104,12 @@ def run(tier, seed):
         check_rejection(rep, findings, cls, text, line, name, r)
     rep.sample(dict(fault=jobs[0][0], text=jobs[0][1], expected_line=jobs[0][2], result=results[0][:3]))
     rep.sample(dict(fault=jobs[-1][0], text=jobs[-1][1], expected_line=jobs[-1][2], result=results[-1][:3]))
+    # static finding: the rows tagged KnownFinding in the accepted table are still live escapes of the regenerated analysis
+    # (C17_accepted_rows_are_live fails to build when a row goes stale, so a built theorem file means they are all still there)
+    if 'F-C17-static-unstamped' in findings and tie_ok and proof['ok']:
+        acc = open(os.path.join(common.VERIF, 'coq', 'Api', 'ExcFlowAccepted.v')).read()
+        if re.search(r'^\s*\("[^"]+",\s*"[^"]+",\s*"[^"]+",\s*KnownFinding\)', acc, re.M):
+            rep.known_finding('F-C17-static-unstamped', findings['F-C17-static-unstamped']['summary'])
     tie_broken = []
     if not tie_ok:
         tie_broken.append('translator failed closed: ' + tout[-600:])
